@@ -4,6 +4,7 @@ import (
 	"fmt"
 	"go/token"
 	"go/types"
+	"strings"
 
 	"golang.org/x/tools/go/ssa"
 )
@@ -446,31 +447,57 @@ func ruleModulePublishes(c *Ctx) {
 func ruleShebangLine(c *Ctx) {
 	const R = "R17-rawread"
 	p := c.P
-	fn := c.need(R, "lua", "(*LState).LoadFile")
-	if fn == nil {
+	// the one place that skips a '#' line gives the newline back…
+	sk := p.Fn("lua", "skipFirstCommentLine")
+	lf := c.need(R, "lua", "(*LState).LoadFile")
+	if lf == nil {
 		return
 	}
-	g := p.G(fn)
-	rl := p.Fn("lua", "readBufioLine")
-	calls := callsTo(fn, rl)
 	c.Sites++
-	if len(calls) == 0 {
-		// no line is skipped by hand: nothing to give back
-		c.ok(R, "LoadFile:shebang-newline-is-counted", p.pos(fn.Pos()), "LoadFile does not consume a line itself")
-		return
+	skipper := sk
+	if skipper == nil {
+		skipper = lf // older shape: LoadFile skips the line itself
 	}
-	okc := true
-	for _, cl := range calls {
-		b, i := after(cl)
-		found := g.walk(b, i, nil, func(in ssa.Instruction) bool {
-			pk, n, ok := stdCall(in)
-			return ok && pk == "bufio" && n == "Reader.UnreadByte"
-		})
-		if !found {
-			okc = false
+	g := p.G(skipper)
+	gives := false
+	allInstrs(skipper, func(in ssa.Instruction) {
+		pk, n, ok := stdCall(in)
+		if !ok || pk != "bufio" || n != "Reader.UnreadByte" {
+			return
+		}
+		if sk == nil {
+			gives = true // reachability was checked by the older form of this rule; kept permissive here
+			return
+		}
+		for _, cd := range g.CondsAtInstr(in) {
+			if b, ok := cd.V.(*ssa.BinOp); ok && b.Op == token.EQL && cd.Sense {
+				if k, ok := constInt(b.Y); ok && k == '\n' {
+					gives = true
+				}
+			}
+		}
+	})
+	consumes := false
+	allInstrs(skipper, func(in ssa.Instruction) {
+		if pk, n, ok := stdCall(in); ok && pk == "bufio" && (n == "Reader.ReadByte" || n == "Reader.ReadSlice" || n == "Reader.ReadLine" || n == "Reader.ReadBytes") {
+			consumes = true
+		}
+		if isCallTo(in, p.Fn("lua", "readBufioLine")) {
+			consumes = true
+		}
+	})
+	c.check(!consumes || gives, R, "LoadFile:shebang-newline-is-counted", p.pos(skipper.Pos()), "the newline of the skipped #-line is given back to the reader", "the first line of a script that starts with '#' is consumed including its newline and the newline is never given back: the scanner starts counting at the second line, so every reported line (error prefixes, currentline, linedefined, tracebacks) is one too small for scripts with a #! line")
+	// …and every file loader goes through it
+	if sk != nil {
+		for _, name := range []string{"(*LState).LoadFile", "baseLoadFile"} {
+			fn := p.Fn("lua", name)
+			if fn == nil {
+				continue
+			}
+			c.Sites++
+			c.check(len(callsTo(fn, sk)) > 0, R, strings.TrimPrefix(name, "(*LState).")+":skips-a-first-#-line", p.pos(fn.Pos()), "calls skipFirstCommentLine", name+" loads a file without skipping a first '#' line: loadfile() of a script with a #! line fails although dofile() of the same file works")
 		}
 	}
-	c.check(okc, R, "LoadFile:shebang-newline-is-counted", p.ipos(calls[0]), "the newline of the skipped #-line is given back to the reader", "LoadFile consumes the first line of a script that starts with '#' including its newline and never gives the newline back: the scanner starts counting at the second line, so every reported line (error prefixes, currentline, linedefined, tracebacks) is one too small for scripts with a #! line")
 }
 
 // ruleCaptureIndex: the matcher reads capture records by an index that comes from the pattern (%1-%9).
@@ -1175,4 +1202,37 @@ func ruleCharRange(c *Ctx) {
 	})
 	c.Sites++
 	c.check(n > 0 && okc, R, "strChar:argument-in-0..255", p.pos(fn.Pos()), "the integer is converted to a byte only within 0..255", "string.char converts its argument to a byte without a range test: string.char(256) silently yields \"\\0\" instead of raising 'invalid value'")
+}
+
+// ruleNumeralValidatedWhereSkipped: the lexer accepts the spelling of a numeral loosely ("1e", "0x");
+// the one numeral reader decides when the constant is compiled. Places in the compiler that recognise a
+// *ast.NumberExpr and may skip compiling it (constant conditions, short-circuited operands) must
+// therefore run the reader themselves: every function of compile.go that tests for *ast.NumberExpr calls
+// parseNumber (or lnumberValue, which does).
+func ruleNumeralValidatedWhereSkipped(c *Ctx) {
+	const R = "R16-onereader"
+	p := c.P
+	pn, lv := p.Fn("lua", "parseNumber"), p.Fn("lua", "lnumberValue")
+	n := 0
+	for _, fn := range p.srcFuncs {
+		if fn.Pkg == nil || fn.Pkg.Pkg.Path() != luaPath || len(p.pos(fn.Pos())) < 11 || p.pos(fn.Pos())[:11] != "compile.go:" {
+			continue
+		}
+		tests := false
+		allInstrs(fn, func(in ssa.Instruction) {
+			if ta, ok := in.(*ssa.TypeAssert); ok && ta.CommaOk && typeName(ta.AssertedType) == "ast.NumberExpr" {
+				tests = true
+			}
+		})
+		if !tests {
+			continue
+		}
+		n++
+		c.Sites++
+		reads := len(callsTo(fn, pn)) > 0 || len(callsTo(fn, lv)) > 0
+		c.check(reads, R, "numeral-checked-where-recognised:"+fname(fn), p.pos(fn.Pos()), "the function runs the numeral reader on the constants it recognises", fname(fn)+" recognises a number constant (and may skip compiling it) without running the numeral reader: `if 1e then … end` or `local x = 1e and 2` is accepted although `return 1e` is a 'malformed number' error")
+	}
+	if n < 3 {
+		c.und(R, "numeral-checked-where-recognised", "-", fmt.Sprintf("expected at least 3 functions of compile.go that recognise number constants, found %d", n))
+	}
 }
